@@ -26,6 +26,7 @@ type EvalCtx struct {
 	fr       *Frame
 	st       *State // state heap reads refer to
 	old      *State // state for old(...)
+	logSt    *State // state the call logs are read from (set inside at(...))
 	vars     map[string]EV
 	pkgPath  string
 	contract *Contract
@@ -55,6 +56,15 @@ func (c *EvalCtx) inState(st *State) *EvalCtx {
 	n := *c
 	n.st = st
 	return &n
+}
+
+// logState: call logs (calls/callArg/callResult/lastResult) are read from the state the clause is evaluated in,
+// also inside at(snapshot, ...): a snapshot fixes the heap and the locals, not the history recorded since.
+func (c *EvalCtx) logState() *State {
+	if c.logSt != nil {
+		return c.logSt
+	}
+	return c.st
 }
 
 // withState runs f with the frame's current state temporarily replaced (heap helper functions read fr.st).
@@ -714,6 +724,7 @@ func (c *EvalCtx) call(e ECall) EV {
 		}
 		var out EV
 		n := c.inState(st)
+		n.logSt = c.logState()
 		n.withFrameState(func() { out = n.eval(e.Args[1]) })
 		return out
 	case "len":
@@ -788,7 +799,7 @@ func (c *EvalCtx) call(e ECall) EV {
 		return EV{T: app(SInt, "s-cap", c.term(x)), Ty: intT}
 	case "calls":
 		name := identName(e.Args[0])
-		if t, ok := c.st.ghost["calls."+name]; ok {
+		if t, ok := c.logState().ghost["calls."+name]; ok {
 			return EV{T: t, Ty: intT}
 		}
 		return EV{T: IntLit(0), Ty: intT}
@@ -805,7 +816,7 @@ func (c *EvalCtx) call(e ECall) EV {
 		}
 		key := fmt.Sprintf("%s.%s.%d.%d", kind, name, n, k)
 		ty := fr.R.trackTypes[key]
-		if t, ok := c.st.ghost[key]; ok {
+		if t, ok := c.logState().ghost[key]; ok {
 			return EV{T: t, Ty: ty}
 		}
 		if ty == nil {
@@ -821,7 +832,7 @@ func (c *EvalCtx) call(e ECall) EV {
 		}
 		key := fmt.Sprintf("last.%s.%d", name, k)
 		ty := fr.R.trackTypes[key]
-		if t, ok := c.st.ghost[key]; ok {
+		if t, ok := c.logState().ghost[key]; ok {
 			return EV{T: t, Ty: ty}
 		}
 		if ty == nil {
